@@ -76,6 +76,7 @@ def h_junit(sx):
         cfg.base_dir = tmp
         cfg.show_skipped = sx.bool("show_skipped")
         rep = JUnitReporter(cfg)
+        rep.show_skipped_always = sx.bool("show_skipped_always")     # userdata switch behave.reporter.junit.show_skipped_always
         rep.show_timestamp = False
         rep.show_hostname = False
         cfg.reporters.append(rep)
@@ -83,12 +84,13 @@ def h_junit(sx):
 
         def det(m):
             return {"hostile": repr(hostile), "where": where, "status": w.status_table(), "escaped": repr(w.escaped),
-                    "show_skipped": sx.eval(cfg.show_skipped, m) if m is not None else bool(cfg.show_skipped)}
+                    "show_skipped": sx.eval(cfg.show_skipped, m) if m is not None else bool(cfg.show_skipped),
+                    "show_skipped_always": sx.eval(rep.show_skipped_always, m) if m is not None else bool(rep.show_skipped_always)}
         sx.check(w.escaped is None, "C16.reporter-does-not-crash", detail=det)
         if w.escaped is not None:
             return {"escaped": repr(w.escaped)}
         files = sorted(glob.glob(os.path.join(cfg.junit_directory, "TESTS-*.xml")))
-        show = bool(cfg.show_skipped)
+        show = bool(cfg.show_skipped) or bool(rep.show_skipped_always)
         st = w.status_table()
         reported = [f for f in w.features if not (f.status.name == "skipped" and not show)]
         sx.check(len(files) == len(reported), "C16.one-report-per-reported-feature", detail=lambda m: dict(det(m), files=[os.path.basename(f) for f in files]))
@@ -259,6 +261,7 @@ def jobs(tier, seed):
         "outline-rule": ([F([S(1), O(1, [(2, [])]), R([S(1)])])], {"out_dom": {"*": [0, 1]}}, False),
         "hooks": ([F([S(1, tags=["t1"]), S(1)], tags=["t0"])], {"out_dom": {"*": [0, 1]}, "undef": False}, True),
         "cleanup": ([F([S(1), S(1)])], {"out_dom": {"*": [5, 6]}, "cleanups": True, "undef": False}, False),
+        "select": ([F([S(1), O(1, [(2, [])])]), F([S(1)])], {"out_dom": {"*": [0, 1]}, "select": True, "undef": False}, False),
     }
     if tier == "thorough":
         shapes.update({"2feat-select": ([F([S(1), S(1)]), F([S(2)])], {"out_dom": D, "select": True}, False),
